@@ -90,7 +90,7 @@ PROPS["C02"] = _std(
     "Explicit-state exploration of operator chains on the real Scalar type against Z/lZ, plus exhaustive corner alphabets for every constructor, for both the 52-bit and 29-bit limb backends.",
     "DESIGN.md section 4, C02",
     "explicit-state BFS (layered engine over stateright::Model machines) over scalar values + exhaustive corner-alphabet enumeration against a reference model",
-    lambda tier: [R("simd"), R("serial32")] if tier == "quick" else [R("simd", deep=True), R("serial32", deep=True), R("serial64"), R("fiat32"), R("fiat64"), R("simd", "rel-legacy"), R("serial32", "rel-legacy")],
+    lambda tier: [R("simd"), R("serial32"), R("simd", "rel-legacy")] if tier == "quick" else [R("simd", deep=True), R("serial32", deep=True), R("serial64"), R("fiat32"), R("fiat64"), R("simd", "rel-legacy"), R("serial32", "rel-legacy")],
 )
 
 PROPS["C03"] = _std(
